@@ -10,10 +10,12 @@ import (
 )
 
 type joinCaseResult struct {
-	sc JoinScenario
-	tr *JoinTrace
-	fs []joinFinding
-	st joinStats
+	leaked   string
+	censused bool
+	sc       JoinScenario
+	tr       *JoinTrace
+	fs       []joinFinding
+	st       joinStats
 }
 
 // joinCase runs one scenario (in a bubble unless it is a real-time one), judges it, records
@@ -25,7 +27,23 @@ func (r *Run) joinCase(t *testing.T, sc JoinScenario, rng *rand.Rand) joinCaseRe
 		out := r.runBubble(t, 60*time.Second, jsonString(sc), func(ctl *bubbleCtl) {
 			ctl.SetPhase("join-scenario", "")
 			res.tr = runJoin(sc, true, rng)
+			if r.wantCensus() && res.tr != nil && res.tr.Rejected == "" && (res.tr.Closed || res.tr.StopRet >= 0) {
+				res.leaked = bubbleCensus(ctl)
+				res.censused = true
+			}
 		})
+		if res.censused {
+			r.Count("goroutine_censuses", 1)
+			way := "input-closed"
+			if sc.StopKind != "" {
+				way = sc.StopKind
+			}
+			r.Count("census."+sc.Disc+"."+way, 1)
+			if res.leaked != "" {
+				r.Violation("C19", "leak:"+sc.Disc+":"+way, "goroutine(s) started by the "+sc.Disc+" discipline remain after it terminated ("+way+"): "+firstLines(res.leaked, 12),
+					map[string]any{"scenario": sc, "stacks": res.leaked})
+			}
+		}
 		if out.Deadlock != "" && res.tr != nil && res.tr.StuckMsg == "" && res.tr.Rejected == "" {
 			// goroutines were left blocked in the bubble although the scenario completed
 			r.Violation("C19", "leak:"+sc.Disc, "goroutines remained blocked after the "+sc.Disc+" scenario ended: "+out.Deadlock,
